@@ -538,3 +538,108 @@ Example high_uid_reads_own_word :     (* uid 2 000 000 cooling, uid 1 / 20 000 /
   cd_of_uid (cd_set (plant_others [] [1; 600; 15] 3) (uid_slot 65537) (-600, 0)) 65537 = (-600, 0) /\
   cd_of_uid (plant_others [] [1; 600; 15] 3) 65537 = (-1, 0).
 Proof. vm_compute. repeat split. Qed.
+
+(* ================================================================== the default board, by NAME *)
+(* postpermMsg's "this is the default board" holds exactly when the board's name and DEFAULT_BOARD are the same C string *)
+Lemma is_default_board_iff dflt name :
+  is_default_board dflt name = true <-> cprefix (fixlen BOARDID_SZ name) = cprefix dflt.
+Proof. unfold is_default_board. rewrite Z.eqb_eq. apply cstrcmp_zero_iff. Qed.
+
+Lemma cprefix_id n l : id_ok n l -> cprefix l = l.
+Proof.
+  intros [Hz _]. rewrite <- (app_nil_r l) at 1. rewrite cprefix_nonul by exact Hz. cbn [cprefix]. apply app_nil_r.
+Qed.
+
+(* for names as they occur (no NUL, at most 12 bytes): the very same name — not a longer one that starts with it, not a
+   shorter one, not another case *)
+Lemma default_board_exact dflt name : id_ok 12 name -> id_ok 12 dflt -> (is_default_board dflt name = true <-> name = dflt).
+Proof.
+  intros [Nn Ln] Hd. rewrite is_default_board_iff.
+  rewrite cprefix_fixlen by (split; [assumption | unfold BOARDID_SZ; lia]).
+  rewrite (cprefix_id _ _ Hd). tauto.
+Qed.
+Lemma default_board_other_name dflt name : id_ok 12 name -> id_ok 12 dflt -> name <> dflt -> is_default_board dflt name = false.
+Proof.
+  intros Hn Hd Hne. destruct (is_default_board dflt name) eqn:E; [| reflexivity].
+  apply (default_board_exact _ _ Hn Hd) in E. contradiction.
+Qed.
+Lemma default_board_not_extension dflt rest : id_ok 12 (dflt ++ rest) -> id_ok 12 dflt -> rest <> [] ->
+  is_default_board dflt (dflt ++ rest) = false.
+Proof.
+  intros Hn Hd Hr. apply (default_board_other_name _ _ Hn Hd). intros E. apply Hr.
+  apply (app_inv_head dflt). rewrite app_nil_r. exact E.
+Qed.
+Lemma default_board_not_prefix name rest : id_ok 12 name -> id_ok 12 (name ++ rest) -> rest <> [] ->
+  is_default_board (name ++ rest) name = false.
+Proof.
+  intros Hn Hd Hr. apply (default_board_other_name _ _ Hn Hd). intros E. apply Hr.
+  apply (app_inv_head name). rewrite app_nil_r. symmetry. exact E.
+Qed.
+
+(* the posting rules of a board that is NOT the default board: the text's rules without the default-board exception *)
+Definition posting_rules_ordinary (w : winp) : bool :=
+  negb (w_readonly w) &&
+  (w_sysop w ||
+   (negb (w_banned w) &&
+    (w_guestpost w ||
+     (w_post w &&
+      (w_hidden w ||
+       ((negb (w_restrictedpost w) || w_friend w) &&
+        (if w_violatelaw w then w_lvl_violatelaw w else w_extra0 w || w_hasextra w))))))).
+Lemma not_default_ordinary_rules w : w_default w = false -> posting_rules w = posting_rules_ordinary w.
+Proof. intros H. unfold posting_rules, posting_rules_ordinary. rewrite H. reflexivity. Qed.
+
+(* whoever fails the posting rules is refused by all four operations, without a trace *)
+Lemma rules_false_refuses : forall now w ws a st, posting_rules w = false ->
+  (fst (run (new_post_steps now w) st) <> Accept /\ frame (snd (run (new_post_steps now w) st)) = frame st) /\
+  (fst (run (recommend_steps now w a) st) <> Accept /\ frame (snd (run (recommend_steps now w a) st)) = frame st) /\
+  (fst (run (edit_post_steps w a) st) <> Accept /\ frame (snd (run (edit_post_steps w a) st)) = frame st) /\
+  (fst (run (cross_post_steps now ws w a) st) <> Accept /\ frame (snd (run (cross_post_steps now ws w a) st)) = frame st).
+Proof.
+  intros now w ws a st PR.
+  destruct (refusal_no_trace now w ws a st) as (T1 & T2 & T3 & T4).
+  assert (N1 : fst (run (new_post_steps now w) st) <> Accept).
+  { intros H. apply accept_implies_rules_new_post in H. unfold may_write in H. rewrite PR, andb_false_r in H. discriminate. }
+  assert (N2 : fst (run (recommend_steps now w a) st) <> Accept).
+  { intros H. apply accept_implies_rules_recommend_partial in H. destruct H as (_ & H & _). congruence. }
+  assert (N3 : fst (run (edit_post_steps w a) st) <> Accept).
+  { intros H. apply accept_implies_rules_edit_post_partial in H. destruct H as (_ & H & _). congruence. }
+  assert (N4 : fst (run (cross_post_steps now ws w a) st) <> Accept).
+  { intros H. apply accepted_true in H. rewrite cross_accept_iff in H.
+    repeat (apply andb_prop in H; destruct H as [H ?]).
+    repeat match goal with E : (postperm _ =? 0) = true |- _ => rewrite postperm_ok in E end.
+    congruence. }
+  repeat split; auto.
+Qed.
+
+(* a board with ANY other name than the default board's — a longer name starting with it included — gets no exemption:
+   the coded test is the ordinary rule, and a user the ordinary rule refuses is refused by all four operations *)
+Lemma other_name_ordinary_rules : forall dflt name w, w_default w = is_default_board dflt name ->
+  id_ok 12 name -> id_ok 12 dflt -> name <> dflt -> (postperm w = 0 <-> posting_rules_ordinary w = true).
+Proof.
+  intros dflt name w Hw Hn Hd Hne. rewrite (default_board_other_name _ _ Hn Hd Hne) in Hw.
+  rewrite <- (not_default_ordinary_rules w Hw). apply postperm_rule.
+Qed.
+Lemma other_name_refused : forall dflt name now w ws a st, w_default w = is_default_board dflt name ->
+  id_ok 12 name -> id_ok 12 dflt -> name <> dflt -> posting_rules_ordinary w = false ->
+  (fst (run (new_post_steps now w) st) <> Accept /\ frame (snd (run (new_post_steps now w) st)) = frame st) /\
+  (fst (run (recommend_steps now w a) st) <> Accept /\ frame (snd (run (recommend_steps now w a) st)) = frame st) /\
+  (fst (run (edit_post_steps w a) st) <> Accept /\ frame (snd (run (edit_post_steps w a) st)) = frame st) /\
+  (fst (run (cross_post_steps now ws w a) st) <> Accept /\ frame (snd (run (cross_post_steps now ws w a) st)) = frame st).
+Proof.
+  intros dflt name now w ws a st Hw Hn Hd Hne PR. rewrite (default_board_other_name _ _ Hn Hd Hne) in Hw.
+  apply rules_false_refuses. rewrite (not_default_ordinary_rules w Hw). exact PR.
+Qed.
+
+Definition n_sysop : list Z := [83; 89; 83; 79; 80].
+Definition no_post_user_on (df : bool) : winp :=      (* a user without the post permission on an open board *)
+  mk_winp true false true false true false false false false false df false false false false true false false true false false false.
+Example default_board_names :     (* SYSOP; SYSOPnote, SYSOP2, SYSO, sysop, Sysop are other boards *)
+  is_default_board n_sysop n_sysop = true /\ is_default_board n_sysop (n_sysop ++ [110; 111; 116; 101]) = false /\
+  is_default_board n_sysop (n_sysop ++ [50]) = false /\ is_default_board n_sysop [83; 89; 83; 79] = false /\
+  is_default_board n_sysop [115; 121; 115; 111; 112] = false /\ is_default_board n_sysop [83; 121; 115; 111; 112] = false /\
+  is_default_board n_sysop (n_sysop ++ [0; 88]) = true /\
+  postperm (no_post_user_on (is_default_board n_sysop n_sysop)) = 0 /\
+  postperm (no_post_user_on (is_default_board n_sysop (n_sysop ++ [50]))) = E_NOPOST /\
+  fst (run (new_post_steps 0 (no_post_user_on (is_default_board n_sysop (n_sysop ++ [50])))) st_some) = Refuse E_NOPOST.
+Proof. vm_compute. repeat split; reflexivity. Qed.
